@@ -42,6 +42,15 @@ def on_case(op, body, impl_out, model_out):
     1/2 (1 - Re sum conj(f_k) g_k e^{i D_k tau} / sum |f_k|^2) over the grid enumeration.  The model's homRate is that
     formula, so on the statement's domain (square grids with identical axes) a value of hom_rate / hom_rate_series
     that differs from it beyond the parallel-sum tolerance is a failing input of the property itself."""
+    if op == "jsi_norm":
+        # the normalisation the title names: sum |f_k|^2 (sequential sum: rel 1e-12), any array
+        if model_out.startswith("UNSUPPORTED") or model_out == "DRIVER-DIED":
+            return []
+        import vlib
+        ok, why = vlib.compare_tokens(impl_out, model_out, TOL[op])
+        t = body.split(" ")
+        return [("C09.integral", ok, "hom/norm-is-sum-of-squares",
+                 f"count={t[1]} head={','.join(t[2:6])} impl={impl_out} sum_of_squares={model_out} {why.replace(' ', '_')}")]
     if op not in ("hom_rate", "hom_rate_series") or not _in_domain(body):
         return []
     if model_out.startswith("UNSUPPORTED") or model_out == "DRIVER-DIED":
